@@ -9,6 +9,7 @@ import (
 	"database/sql"
 	"database/sql/driver"
 	"encoding/json"
+	"errors"
 	"flag"
 	"fmt"
 	"os"
@@ -177,6 +178,7 @@ func (w *txWorld) events(marker int) []string {
 			if d := shapeMismatch(ev); d != "" {
 				w.viol("C09", "tx-executed-a-statement-prepared-for-another-shape", d)
 				w.viol("C12", "tx-executed-a-statement-prepared-for-another-shape", d)
+				w.viol("C16", "tx-executed-a-statement-prepared-for-another-shape", d)
 			}
 			if marker == -1 {
 				// the query was built with a nil context: the driver must see context.Background()
@@ -211,8 +213,11 @@ func txErrClass(err error) string {
 	switch {
 	case err == nil:
 		return "ok"
-	case err == sqlair.ErrTXDone || strings.Contains(err.Error(), "transaction has already been committed or rolled back"):
+	case errors.Is(err, sqlair.ErrTXDone):
 		return "txdone"
+	case strings.Contains(err.Error(), "transaction has already been committed or rolled back"):
+		// says so but is not ErrTXDone (errors.Is fails): the caller cannot recognise it
+		return "txdone-in-words-only"
 	case err == sqlair.ErrNoRows || strings.Contains(err.Error(), "cannot get result"):
 		return "ok" // the statement ran; the retrieval outcome is not at stake here
 	}
@@ -254,10 +259,26 @@ func (w *txWorld) exec(op string, r *rng) string {
 			return "?"
 		}
 		var err error
-		if w.kinds[k] == 1 || w.kinds[k] == 3 {
+		var oc sqlair.Outcome
+		switch {
+		case (k+len(w.queries))%4 == 1:
+			// through Get with an Outcome, and through an explicit iterator asked for the Outcome
+			var p Person
+			if w.kinds[k] == 1 || w.kinds[k] == 3 {
+				err = w.queries[k].Get(&oc, &p)
+			} else {
+				err = w.queries[k].Get(&oc)
+			}
+		case (k+len(w.queries))%4 == 2:
+			it := w.queries[k].Iter()
+			err = it.Get(&oc)
+			if cerr := it.Close(); err == nil {
+				err = cerr
+			}
+		case w.kinds[k] == 1 || w.kinds[k] == 3:
 			var ps []Person
 			err = w.queries[k].GetAll(&ps)
-		} else {
+		default:
 			err = w.queries[k].Run()
 		}
 		mk := 100 + k
